@@ -31,6 +31,7 @@
              the `cdsfeat` / `coll` runs against the spec's "partial at both ends" reading).
 -/
 import BioCantor.Proofs.TblAll
+set_option autoImplicit false   -- an unresolved name in a statement must be an error, never a bound variable
 namespace BioCantor.Props.C17
 open BioCantor BioCantor.Model BioCantor.Model.Tbl BioCantor.Spec BioCantor.Spec.Tbl BioCantor.Proofs
 open BioCantor.Proofs.Tbl
